@@ -258,6 +258,11 @@ func (w *fsWorld) apply(t []string) string {
 func showEntries(v avfs.VFS, des []fs.DirEntry) string {
 	var parts []string
 	for _, de := range des {
+		if projMode {
+			// names and types only (what getdents returns); Info() would need search permission on the directory
+			parts = append(parts, fmt.Sprintf("%s:%d", tok(de.Name()), uint32(de.Type())))
+			continue
+		}
 		info, err := de.Info()
 		if err != nil {
 			parts = append(parts, "ERR")
@@ -522,16 +527,21 @@ var fsUsers = [][3]int{{0, 0, 1}, {1000, 1000, 0}, {1001, 1000, 0}, {1002, 1002,
 var fsSpecial = []string{"/", "", ".", "..", "a", "./a", "/a/../b", "//a", "/a/", "a/b", "/..", "/./a", "/a/./b", "/a//b", "../a"}
 
 type fsGen struct {
-	r      *rng
-	w      *fsWorld
-	snap   []snapEntry
-	admin  bool // keep view users administrators (C01 style) or mix identities (C03 style)
-	nviews int
-	single bool // one view, no handle kept open (OpenFile closes at once), no Sub
-	clean  bool // lexically clean paths only (C01's oracle stream)
-	noEval bool // no EvalSymlinks
-	links  int  // extra weight (0..3) of symbolic-link creating calls
+	r       *rng
+	w       *fsWorld
+	snap    []snapEntry
+	admin   bool // keep view users administrators (C01 style) or mix identities (C03 style)
+	nviews  int
+	single  bool // one view, no handle kept open (OpenFile closes at once), no Sub
+	clean   bool // lexically clean paths only (C01's oracle stream)
+	noEval  bool // no EvalSymlinks
+	links   int  // extra weight (0..3) of symbolic-link creating calls
+	dac     bool // permission-centred stream: the administrator reshuffles owners and modes, other users act
+	pending []string
 }
+
+var dacModes = []uint32{0, 0o700, 0o070, 0o007, 0o750, 0o755, 0o711, 0o555, 0o444, 0o222, 0o111, 0o666, 0o660, 0o600, 0o777, 0o775, 0o730,
+	uint32(fs.ModeSticky) | 0o777, uint32(fs.ModeSticky) | 0o770, uint32(fs.ModeSetgid) | 0o775, uint32(fs.ModeSetuid) | 0o755, 0o577, 0o757, 0o775}
 
 // cleanIf cleans a generated path when the stream demands clean paths ("" stays "")
 func (g *fsGen) cleanIf(p string) string {
@@ -653,6 +663,26 @@ func (r *rng) pick2(xs []int) int { return xs[r.intn(len(xs))] }
 
 // op produces the next call as tokens
 func (g *fsGen) op() string {
+	if len(g.pending) > 0 {
+		o := g.pending[0]
+		g.pending = g.pending[1:]
+		return o
+	}
+	if g.dac && g.r.chance(1, 7) {
+		// as the administrator give random owners, groups and modes to existing nodes, then act as a random
+		// non-administrator user for the following calls
+		r := g.r
+		q := []string{"SU 0 0 0 1"}
+		for k := 0; k < 2+r.intn(3); k++ {
+			u := fsUsers[r.intn(len(fsUsers))]
+			q = append(q, fmt.Sprintf("CO 0 %s %d %d", tok(g.cleanIf(g.existing(0))), u[0], u[1]))
+			q = append(q, fmt.Sprintf("CM 0 %s %d", tok(g.cleanIf(g.existing(0))), dacModes[r.intn(len(dacModes))]))
+		}
+		u := fsUsers[1+r.intn(len(fsUsers)-1)]
+		q = append(q, fmt.Sprintf("SU 0 %d %d 0", u[0], u[1]))
+		g.pending = q[1:]
+		return q[0]
+	}
 	r := g.r
 	v := r.intn(g.nviews)
 	vs := strconv.Itoa(v)
